@@ -1,11 +1,13 @@
 #!/bin/sh
+# usage: seedmatrix.sh [m|n]   (m = first round of seeded changes, n = second round)
 # run every kept seeded change against the check of the property it was written for (and extra checks given in tools/seed_extra.txt);
 # writes /verif/seeded/RESULTS.md.  Sequential; /repo is restored after each run.  Do not touch /repo while this runs.
 cd /verif
-OUT=/verif/seeded/RESULTS.md
+PFX=${1:-m}
+OUT=/verif/seeded/RESULTS-$PFX.md
 echo "| seeded change | needs | check | exit | verdict line |" > $OUT.tmp
 echo "|---|---|---|---|---|" >> $OUT.tmp
-for D in seeded/C*-m*; do
+for D in seeded/C*-$PFX*; do
   S=$(basename $D); P=${S%%-*}
   NEEDS=$(python3 -c "import json,sys; print(json.load(open('$D/meta.json')).get('needs','')[:160].replace('|','/').replace('\n',' '))")
   for C in $P $(grep "^$S " tools/seed_extra.txt 2>/dev/null | cut -d' ' -f2-); do
